@@ -51,6 +51,29 @@ CHECKS = {
              "socket-level disconnect detection is covered only by the HTTP runs of C20",
         technique="TLA+ reference spec + TLC trace validation; TLC-generated session histories",
         design="DESIGN.md §5 C17"),
+    "C10": dict(
+        level="exploration",
+        text="The input space is itself a TLA+ specification (MC_Fuzz: command word x argument token "
+             "classes x sub-command keywords) that TLC enumerates exhaustively up to the argument bound; "
+             "every line is sent to the real node from four credential states, followed by a probe "
+             "write/read of another client; TLC validates the trace against Trace_Robust (every line "
+             "answered value/ok/error, no panic, no poisoned lock, probe still served, rejected lines "
+             "change nothing). Seeded longer sequences and random byte strings on top.",
+        note="exploration, not a proof over all byte strings; lines enter at process_request (a panic there "
+             "is what kills an HTTP worker / TCP connection thread); dev profile",
+        technique="TLC-enumerated input space + TLC trace validation of real runs (robustness spec)",
+        design="DESIGN.md §5 C10"),
+    "C20": dict(
+        level="model_checking",
+        text="MC_Http (TLC, exhaustive to the body bound) checks the implementation-shaped reply (per-request "
+             "message queue) against NunHttp!RefReply and generates one body per (session state, queue "
+             "residue, last command, next command); each body is POSTed to the node's real HTTP server and "
+             "TLC validates the reply entry by entry against the per-command outcomes of a twin node, plus "
+             "same final state and session release.",
+        note="per-command outcomes come from a twin node (same binary) executing the commands one by one; "
+             "WebSocket frames not exercised",
+        technique="TLA+ reference (NunHttp) + TLC trace validation of real HTTP requests; TLC-generated bodies",
+        design="DESIGN.md §5 C20"),
 }
 
 NOT_YET = "check not built yet (build in progress; see DESIGN.md §8 build order)"
